@@ -90,6 +90,46 @@ pub fn gen_spec(r: &mut Rng) -> Value {
     json!({"ch":"e2e","pages":pages,"cfg":cfg})
 }
 
+/// tie family: one heading, then 2-3 (x1-2) single-line paragraphs of exactly equal character count, each in a
+/// different standard font (or size), optionally split by a page break; with max_tokens 512 they merge into one
+/// chunk whose dominant_font / dominant_font_size is a tie.  Only run-to-run identity is demanded of these documents
+/// (no tie-break is documented, and font-dependent layout heuristics are not this family's subject).
+pub fn gen_tie_spec(r: &mut Rng) -> Value {
+    const FONTS: [&str; 4] = ["Helvetica", "Times-Roman", "Courier", "Helvetica-Bold"];
+    let five: Vec<&str> = POOL.iter().copied().filter(|w| w.len() == 5).collect();
+    let mut n = r.below(200) as usize;
+    let mut w6 = || {
+        n += 1;
+        format!("{}{}", five[n % five.len()], (b'a' + ((n / five.len()) % 26) as u8) as char)
+    };
+    let nf = r.range(2, 3) as usize;
+    let per = r.range(1, 2) as usize;
+    let nw = r.range(4, 6) as usize;
+    let by_size = r.chance(1, 3);
+    let off = r.below(4) as usize;
+    let mut paras: Vec<Value> = vec![];
+    for j in 0..nf * per {
+        let fi = j % nf;
+        let mut ws: Vec<String> = (0..nw).map(|_| w6()).collect();
+        let l = ws.len() - 1;
+        ws[l].push('.');
+        if by_size {
+            paras.push(json!({"p":[ws.join(" ")], "f":"Helvetica", "s": 10.0 + fi as f64}));
+        } else {
+            paras.push(json!({"p":[ws.join(" ")], "f": FONTS[(fi + off) % 4]}));
+        }
+    }
+    let split = if r.chance(1, 2) { r.range(1, paras.len() as u64 - 1) as usize } else { paras.len() };
+    let mut p0 = vec![json!({"h": 1, "t": format!("{} {}", cap(&w6()), cap(&w6()))})];
+    p0.extend(paras[..split].iter().cloned());
+    let mut pages = vec![p0];
+    if split < paras.len() {
+        pages.push(paras[split..].to_vec());
+    }
+    let cfg = json!({"entry": *r.pick(&["plain", "with", "source"]), "max_tokens": 512, "mode": *r.pick(&["none", "heading", "labeled", "prose"])});
+    json!({"ch":"e2e","tie":true,"pages":pages,"cfg":cfg})
+}
+
 struct Block {
     page: u32,
     heading: bool,
@@ -127,6 +167,12 @@ pub struct Verdict {
     pub cross_page_only: bool, // every breadcrumb mismatch concerns a chunk whose governing headings start on an earlier page
 }
 
+fn first_diff(a: &str, b: &str) -> String {
+    let (ca, cb): (Vec<char>, Vec<char>) = (a.chars().collect(), b.chars().collect());
+    let i = ca.iter().zip(&cb).position(|(x, y)| x != y).unwrap_or(ca.len().min(cb.len()));
+    let lo = i.saturating_sub(60);
+    format!("{:?} vs {:?}", ca[lo..(i + 40).min(ca.len())].iter().collect::<String>(), cb[lo..(i + 40).min(cb.len())].iter().collect::<String>())
+}
 fn ser(chunks: &[RagChunk]) -> String {
     format!("{:?}", chunks)
 }
@@ -214,9 +260,29 @@ pub fn evaluate(ctx: &Ctx, spec: &Value, idx: usize) -> Result<Verdict, String> 
             }
         }
     }
-    // (e) determinism: second run on a fresh parse in this process, third run in a child process
+    let tie = spec["tie"].as_bool().unwrap_or(false);
+    if tie {
+        // font-dependent layout is not this family's subject: only run-to-run identity is demanded
+        once = true;
+        crumbs = true;
+        cross_page_only = true;
+        pages.clear();
+        diag.clear();
+    }
+    // (e) determinism: repeated runs in this process (same document and fresh parses), one run in a child process.
+    // HashMap/HashSet iteration order is random per instance, so an order-dependent aggregate needs several
+    // repetitions to show; the full serialisation (text, pages, ids, links, every metadata aggregate) is compared.
     let s1 = ser(&chunks);
     let mut determ = true;
+    let reps = if tie { 24 } else { 6 };
+    for k in 0..reps {
+        let sk = if k % 4 == 3 { ser(&run_chunks(&open_doc(&bytes)?, &spec["cfg"])?) } else { ser(&run_chunks(&doc, &spec["cfg"])?) };
+        if sk != s1 {
+            determ = false;
+            diag.push(format!("repetition {} of {} serialises differently from the first run (metadata included): {}", k + 1, reps, first_diff(&s1, &sk)));
+            break;
+        }
+    }
     let doc2 = open_doc(&bytes)?;
     let s2 = ser(&run_chunks(&doc2, &spec["cfg"])?);
     if s1 != s2 {
@@ -254,6 +320,9 @@ pub fn emit(ctx: &Ctx, out: &mut Out, spec: &Value, class: &str) {
     let spec_c = spec.clone();
     let res = catch(std::panic::AssertUnwindSafe(|| evaluate(ctx, &spec_c, idx)));
     let mut js = json!({"ch":"e2e","pages":spec["pages"],"cfg":spec["cfg"]});
+    if spec["tie"].as_bool().unwrap_or(false) {
+        js["tie"] = json!(true);
+    }
     match res {
         Ok(Ok(v)) => {
             let coq = format!(
@@ -277,6 +346,10 @@ pub fn emit(ctx: &Ctx, out: &mut Out, spec: &Value, class: &str) {
 }
 
 pub fn generate(ctx: &Ctx, r: &mut Rng, out: &mut Out, n: usize) {
+    for _ in 0..(n / 2).max(12) {
+        let spec = gen_tie_spec(r);
+        emit(ctx, out, &spec, "tie_fonts_or_sizes");
+    }
     for _ in 0..n {
         let spec = gen_spec(r);
         let np = spec["pages"].as_array().unwrap().len();
@@ -288,16 +361,17 @@ pub fn scratch(ctx: &Ctx) {
     let mut r = Rng::new(ctx.seed);
     let spec = match ctx.replay_cases() {
         Some(c) => c[0].clone(),
+        None if ctx.flag("--tie") => gen_tie_spec(&mut r),
         None => gen_spec(&mut r),
     };
     println!("{}", serde_json::to_string_pretty(&spec).unwrap());
     let bytes = author(&spec).unwrap();
     let doc = open_doc(&bytes).unwrap();
     for e in doc.partition().unwrap() {
-        println!("EL {} p{} fs={:?} path={:?} text={:?}", e.type_name(), e.page(), e.metadata().font_size, e.metadata().heading_path, e.text());
+        println!("EL {} p{} font={:?} fs={:?} path={:?} text={:?}", e.type_name(), e.page(), e.metadata().font_name, e.metadata().font_size, e.metadata().heading_path, e.text());
     }
     for c in run_chunks(&doc, &spec["cfg"]).unwrap() {
-        println!("CH {} pages={:?} id={} path={:?} types={:?}\n   text={:?}", c.chunk_index, c.page_numbers, c.metadata.chunk_id, c.metadata.heading_path, c.element_types, c.text);
+        println!("CH {} pages={:?} id={} path={:?} types={:?} dom={:?}/{:?}\n   text={:?}", c.chunk_index, c.page_numbers, c.metadata.chunk_id, c.metadata.heading_path, c.element_types, c.metadata.dominant_font, c.metadata.dominant_font_size, c.text);
     }
     let v = evaluate(ctx, &spec, 0).unwrap();
     println!("once={} crumbs={} determ={} cross_page_only={} diag={:#?}", v.once, v.crumbs, v.determ, v.cross_page_only, v.diag);
